@@ -139,12 +139,21 @@ def flat_steps(scn, case, inv, drop):
             post['iq'], post['eq'], tuple(sorted((f(k), tuple(sorted(f(x) for x in v))) for k, v in post['memory'])))
 
 
-def plug(guest):
+def plug(guest, mode='prefix'):
+    """mode: 'prefix' (fresh names) | 'up' / 'down': every name is sent to the next / previous one of the guest's own sorted
+    names (order-preserving, but the image overlaps the domain: the library may refuse such a renaming with
+    StatechartError - it must not accept it and build something else)"""
     from sismic.model import BasicState, CompoundState, Statechart
     host = Statechart('host', preamble=guest.preamble)
     host.add_state(CompoundState('hroot', initial='plug'), None)
     host.add_state(BasicState('plug'), 'hroot')
-    f = lambda n: 'g_' + n
+    if mode == 'prefix':
+        f = lambda n: 'g_' + n
+    else:
+        names = sorted(n for n in guest.states if n != guest.root)
+        ring = (names[1:] + ['~' + names[-1]]) if mode == 'up' else ([' ' + names[0]] + names[:-1])
+        table = dict(zip(names, ring))
+        f = lambda n: table.get(n, n)
     host.copy_from_statechart(guest, source=guest.root, replace='plug', renaming_func=f)
     inv = {'plug': guest.root}
     for n in guest.states:
@@ -167,8 +176,8 @@ def main(tier, seed):
     n_charts = 260 if tier == 'quick' else 3000
     # (code must not mention state names: rename_state does not rewrite code)
     profile = genchart.Profile(p_orth=0.4, p_history=0.3, p_contract=0.2, p_internal=0.3, p_entry_code=0.6, max_states=12,
-                               p_active_guard=0.0, active_in_actions=False, p_varied_names=0.0, p_char_names=0.0,
-                               alt=(0.3, genchart.parallel_profile(p_internal=0.3, p_entry_code=0.6, p_active_guard=0.0, p_varied_names=0.0, p_char_names=0.0,
+                               p_active_guard=0.0, active_in_actions=False, p_varied_names=0.0, p_char_names=0.0, p_prefix_names=0.0,
+                               alt=(0.3, genchart.parallel_profile(p_internal=0.3, p_entry_code=0.6, p_active_guard=0.0, p_varied_names=0.0, p_char_names=0.0, p_prefix_names=0.0,
                                                                    active_in_actions=False)))
     n_viol = 0
     stats = dict(charts=0, renamings=0, renamed_states=0, internal_transitions_of_renamed_states=0, lockstep_execs=0,
@@ -245,14 +254,29 @@ def main(tier, seed):
         if root_has_final_child(chart):
             stats['copy_skipped'] += 1      # a final child of the guest's root ends the guest but not the host
             continue
-        try:
-            host, hinv = plug(chart)
-        except Exception as e:  # noqa
+        mode = rng.choice(['prefix', 'prefix', 'up', 'down'])
+        host = err = None
+        if mode != 'prefix':
+            from sismic.exceptions import StatechartError
+            try:
+                host, hinv = plug(chart, mode)
+            except StatechartError:
+                stats['copy_refused'] = stats.get('copy_refused', 0) + 1     # an overlapping renaming may be refused
+                mode = 'prefix'
+            except Exception as e:  # noqa
+                err = e
+        if host is None and err is None:
+            try:
+                host, hinv = plug(chart, mode)
+            except Exception as e:  # noqa
+                err = e
+        if err is not None:
             n_viol += 1
-            v.violation(dict(property=PROP, clause='copy_from_statechart raised on a well-formed guest', error=repr(e),
+            v.violation(dict(property=PROP, clause='copy_from_statechart raised on a well-formed guest', error=repr(err), mode=mode,
                              chart_yaml=sismic.io.export_to_yaml(chart)), tag='copy_err%d' % k)
             continue
         stats['copies'] += 1
+        stats['copies_' + mode] = stats.get('copies_' + mode, 0) + 1
         g, h = mk_scn(copy.deepcopy(chart)), mk_scn(host)
         for j, op in enumerate(script):
             rg, rh = metam.apply_op(g, op), metam.apply_op(h, op)
